@@ -6,7 +6,7 @@
    reachable from the start of process() with t tasks, n source items, concurrency c
    by ANY interleaving of these transitions.  The log is newest-first. *)
 From Coq Require Import List Arith Bool.
-From Wpull Require Import Model.Pipeline Proofs.PipelineBase Proofs.PipelineSafety Proofs.PipelineStop Proofs.PipelineLive Proofs.PipelineOnce.
+From Wpull Require Import Model.Pipeline Proofs.PipelineBase Proofs.PipelineSafety Proofs.PipelineStop Proofs.PipelineLive Proofs.PipelineOnce Proofs.PipelineTerm.
 Import ListNotations.
 
 (* every (start|end, item, task) event is logged at most once *)
@@ -71,6 +71,23 @@ Theorem C13_exactly_once_without_stop :
 Proof. exact exactly_once. Qed.
 Print Assumptions C13_exactly_once_without_stop.
 
+(* every execution is finite: [Phi t s] is an explicit natural-number potential (a weighted count
+   of items still to come, queued items and pills, the work left in every worker, the producer's
+   and the main coroutine's position, a reserve for the pills of a future stop).  Every coroutine
+   step and every answer of the environment (task completes/raises, source yields an item, None,
+   raises: [progress l = true]) strictly decreases it and stop() never increases it, so
+   (a) there is no infinite sequence of progress steps from a reachable state, and
+   (b) in any run without a concurrency change - stop() requests allowed at every point - the number
+       of progress steps is at most the potential of the state it starts from.
+   Only [concurrency := k] can raise the potential (it queues pills / allows more workers). *)
+Theorem C13_every_execution_finite :
+  forall t n c,
+    well_founded (succ_rel t n c) /\
+    (forall s, reachable t n c s -> forall ls s', run t s ls = Some s' -> forallb no_conc ls = true ->
+               count_progress ls + Phi t s' <= Phi t s).
+Proof. intros t n c. split; [exact (every_execution_finite t n c)|exact (bounded_progress t n c)]. Qed.
+Print Assumptions C13_every_execution_finite.
+
 (* non-vacuity: 2 tasks, 2 items, concurrency 1; stop() arrives while item 1 is in its second
    task and item 2 is queued: item 1 finishes (two events after the stop), item 2 is never
    started, the parked producer is cancelled and process() returns *)
@@ -105,3 +122,9 @@ Proof.
   eexists. split; [vm_compute; reflexivity|]. split; [|repeat split].
   cbn. intuition discriminate.
 Qed.
+
+(* non-vacuity of the bound: the potential of the start state for 2 tasks, 2 items, concurrency 1,
+   and the 14 progress steps (+1 stop) of the first example run *)
+Example C13_potential_value :
+  Phi 2 (init 2 1) = 58 /\ count_progress C13_example_run = 14 /\ forallb no_conc C13_example_run = true.
+Proof. vm_compute. repeat split; reflexivity. Qed.
